@@ -94,6 +94,10 @@ pub fn dispatch_model(_svc: &VarlinkService, iface: &str, call: &mut Call) -> cr
             REQUEST_OK = false;
         }
     }
+    if m.target == T_UNKNOWN_IFACE {
+        // no such interface in the table: what the real VarlinkService::call does
+        return call.reply_interface_not_found(Some(iface.into()));
+    }
     let mut i = 0;
     while i < m.nreplies && i < MAXREPLIES {
         let _ = call.writer.write_all(b"S\0");
@@ -122,8 +126,10 @@ where
     // a malformed message must not be answered (see stubs::memrchr_guarded)
     assert!(!unsafe { stubs::PARSE_FAILED }, "P:c06.malformed_message_is_not_answered");
     let m = unsafe { SCEN.msgs[CUR_ORD as usize] };
+    // a method without interface part is named in full; an unregistered interface by its name
+    let want = if m.target == T_UNKNOWN_IFACE { "x.y" } else { method_of(m.target) };
     let ok = match &arg {
-        Some(a) => super::tagser::key_eq(a.as_str(), method_of(m.target)),
+        Some(a) => super::tagser::key_eq(a.as_str(), want),
         None => false,
     };
     if !ok {
@@ -357,6 +363,11 @@ const OTHERFLAGS: Flags = Flags {
 };
 handle_harness!(c01_k2_dd_flags2, 8, 2, M2, b"t", NOFAIL, OTHERFLAGS, [D, D, D]);
 handle_harness!(c01_k2_dd, 8, 2, M2, b"t", NOFAIL, NOFLAGS, [D, D, D]);
+const U: u8 = T_UNKNOWN_IFACE;
+handle_harness!(c01_k1_u, 8, 1, M1, b"t", NOFAIL, NOFLAGS, [U, D, D]);
+handle_harness!(c01_k2_ud, 8, 2, M2, b"t", NOFAIL, NOFLAGS, [U, D, D]);
+handle_harness!(c01_k2_du, 8, 2, M2, b"t", NOFAIL, NOFLAGS, [D, U, D]);
+handle_harness!(c01_k3_dud, 8, 3, M3, b"", NOFAIL, NOFLAGS, [D, U, D]);
 handle_harness!(c01_k2_nd, 8, 2, M2, b"t", NOFAIL, NOFLAGS, [NO, D, D]);
 handle_harness!(c01_k2_dn, 8, 2, M2, b"t", NOFAIL, NOFLAGS, [D, NO, D]);
 handle_harness!(c01_k2_ed, 8, 2, M2, b"t", NOFAIL, NOFLAGS, [E, D, D]);
